@@ -274,7 +274,9 @@ def build_harness(name, race=False):
     with Lock():
         ov = gen_overlay(name)
         os.makedirs(BIN, exist_ok=True)
-        tgt = os.path.join(BIN, name + ("_race" if race else ""))
+        # one binary per invoking process: concurrent checks (possibly against different trees via VERIF_REPO)
+        # must never run each other's build
+        tgt = os.path.join(BIN, "%s%s.%d" % (name, "_race" if race else "", os.getpid()))
         cmd = ["go", "build", "-tags", "verif", "-overlay", ov, "-o", tgt]
         if race:
             cmd.append("-race")
@@ -387,6 +389,10 @@ class Ctx:
                 st["harness_stderr"] = "timeout"
         st["harness_s"] = round(time.time() - t0, 2)
         st["log"] = logp
+        try:
+            os.remove(binp)
+        except OSError:
+            pass
         st["ran"] = True
         t0 = time.time()
         with open(logp) as fh:
